@@ -5,7 +5,7 @@
    by the correspondence and the search on real bindings. *)
 From Coq Require Import NArith Arith List Bool.
 Require Import RasnV.Model.Base RasnV.Model.Names RasnV.Model.Components.
-Require RasnV.Proofs.C02.
+Require RasnV.Model.Expansion RasnV.Proofs.C02 RasnV.Proofs.C02Link.
 Import ListNotations.
 
 (* SEQUENCE / SET, any number of components before and after the extension marker (or no marker): exactly one field per
@@ -42,10 +42,37 @@ Theorem C02_recursive_boxed :
     exists inner, written_type t name parent true = s_box_l ++ inner ++ s_gt.
 Proof. exact Proofs.C02.written_type_boxed. Qed.
 
-(* the plain-member hypothesis of C02_fields is needed: a COMPONENTS OF entry in the root is counted in the index of the
-   first addition, so the addition after it is not marked (known finding C02-components-of-extension-index) *)
-Theorem C02_components_of_index_refuted :
+(* the plain-member hypothesis of C02_fields is not needed for the type's own components: COMPONENTS OF entries, wherever
+   they are written, change neither the order nor the root / addition status of the components around them (refuted until
+   the fix of C02-components-of-extension-index, when an entry in the root was counted in the index of the first addition) *)
+Theorem C02_fields_around_components_of :
+  forall parent root marker adds,
+    fields_of parent (assemble root marker adds) =
+    map (Proofs.C02.spec_field parent false) (only_members root) ++ map (Proofs.C02.spec_field parent marker) (only_members adds).
+Proof. exact Proofs.C02.fields_of_assembled_any. Qed.
+
+Example C02_components_of_index_example :
   let s := assemble [CComponentsOf [88]%N; CMember Proofs.C02.mA] true [CMember Proofs.C02.mB] in
-  members s = [Proofs.C02.mA; Proofs.C02.mB] /\ extensible s = Some 2%nat /\
-  map f_ext (fields_of [80]%N s) = [0%N; 0%N].
-Proof. exact Proofs.C02.components_of_index_refuted. Qed.
+  members s = [Proofs.C02.mA; Proofs.C02.mB] /\ extensible s = Some 1%nat /\
+  map f_ext (fields_of [80]%N s) = [0%N; 1%N].
+Proof. exact Proofs.C02.components_of_index_example. Qed.
+
+(* across the linker: the components copied for COMPONENTS OF join the extension root of the including type, in order,
+   behind its own root components, and the type's own additions -- all of them and nothing else -- stay additions
+   (that they stand behind the own root components instead of at the place of the notation is the known finding
+   C09-components-of-appended; their root / addition status is right) *)
+Theorem C02_copied_components_join_root :
+  forall own_root own_adds copied,
+    Expansion.link_marked own_root own_adds copied true =
+    map (fun x => (x, false)) (own_root ++ copied) ++ map (fun x => (x, true)) own_adds.
+Proof. exact Proofs.C02Link.link_marked_with_marker. Qed.
+
+Theorem C02_copied_components_without_marker :
+  forall own_root own_adds copied,
+    Expansion.link_marked own_root own_adds copied false = map (fun x => (x, false)) ((own_root ++ own_adds) ++ copied).
+Proof. exact Proofs.C02Link.link_marked_without_marker. Qed.
+
+Example C02_copied_components_example :
+  Expansion.link_marked [[97]%N] [[98]%N] [[120]%N; [121]%N] true =
+  [([97]%N, false); ([120]%N, false); ([121]%N, false); ([98]%N, true)].
+Proof. exact Proofs.C02Link.link_marked_example. Qed.
